@@ -271,18 +271,37 @@ def spBlock (m : SeqMod) (s1 : St) (seq pos' : Int) : Option St :=
 def spCommit (m : SeqMod) (s2 : St) (pos' : Int) : St :=
   if pos' < m.len then resetFlow { s2 with pos := if pos' = 0 then -1 else pos' } else s2
 
+/-- `while (dir > 0 && pos < len && xxo[pos] >= pat && !(has_marker && xxo[pos] == 0xff)) pos++` -/
+def skipNoPat (m : SeqMod) : Nat → Int → Int
+  | 0, pos => pos
+  | fuel + 1, pos =>
+    if pos < m.len ∧ m.xo pos ≥ m.pat ∧ ¬ (m.marker = true ∧ m.xo pos = 0xff) then skipNoPat m fuel (pos + 1)
+    else pos
+
+/-- the order `set_position` finally aims at: 0xfe markers skipped in direction `dir`, then (moving
+forward) orders without a pattern passed over -/
+def spTarget (m : SeqMod) (seq pos dir : Int) : Int :=
+  let pos1 := skipMarker m (m.entryOf seq) dir 258 pos
+  if dir > 0 then skipNoPat m 258 pos1 else pos1
+
+/-- the body of `if (pos >= 0 && pos < mod->len) { … }` after the skipping loops, plus the final
+commit; `s1` already carries the new `p->sequence` -/
+def spMove (m : SeqMod) (s1 : St) (seq pos' dir : Int) : St :=
+  let patv := if pos' < m.len then m.xo pos' else 0xff
+  -- relative moves never leave the sequence
+  if dir ≠ 0 ∧ (pos' ≥ m.len ∨ (m.marker = true ∧ patv = 0xff) ∨ geti m.seqCtl pos' ≠ seq) then s1 else
+  let s1b := { s1 with endPoint := if pos' > geti m.scanOrd seq then 0 else geti m.scanNum seq }
+  match spBlock m s1b seq pos' with
+  | none => s1b
+  | some s2 => spCommit m s2 pos'
+
 /-- `set_position(ctx, pos, dir)` -/
 def setPosition (m : SeqMod) (s : St) (pos dir : Int) : St :=
   let seq := if dir = 0 then geti m.seqCtl pos else s.sequence
   if seq = 0xff then s else
   if seq < 0 then s else
-  let s1 := { s with sequence := seq }
-  if 0 ≤ pos ∧ pos < m.len then
-    let pos' := skipMarker m (m.entryOf seq) dir 258 pos
-    match spBlock m s1 seq pos' with
-    | none => s1
-    | some s2 => spCommit m s2 pos'
-  else spCommit m s1 pos
+  if 0 ≤ pos ∧ pos < m.len then spMove m { s with sequence := seq } seq (spTarget m seq pos dir) dir
+  else spCommit m { s with sequence := seq } pos
 
 /-- `xmp_next_position` -/
 def nextPosition (m : SeqMod) (s : St) : St :=
